@@ -20,7 +20,9 @@ produces for the literal; in `ℝ` it is the decimal itself.
 
 The nearest-neighbour table, the initiation / symmetry penalties and the set of terminal letters
 carrying a penalty are NOT typed here: they are `Gen.nnRows`, `Gen.nnInit`, `Gen.nnSymmetry`,
-`Gen.nnTerminal`, re-extracted on every run from the behaviour of the compiled code (in tenths).
+`Gen.nnTerminal`, re-extracted on every run from the behaviour of the compiled code (in tenths);
+entries involving bytes other than A/C/G/T are kept apart (`Gen.nnOtherRows`, `Gen.nnOtherTerminal`,
+capped) and are read only for out-of-domain inputs — no theorem depends on them.
 -/
 namespace PolyVerif.Primers
 open PolyVerif PolyVerif.Transform
@@ -56,10 +58,16 @@ def Num.tenths (n : Num α) (t : Int) : α := n.dec t 1
 def nnLookup (x y : Char) : Int × Int :=
   match Gen.nnRows.lookup (x.toNat, y.toNat) with
   | some p => p
-  | none => (0, 0)
+  | none =>
+    match Gen.nnOtherRows.lookup (x.toNat, y.toNat) with     -- pairs with a letter outside A/C/G/T (out of domain)
+    | some p => p
+    | none => (0, 0)
 
 /-- the terminal penalty carried by a last letter (`== 'A' || == 'T'` in the source), as observed -/
-def terminalLookup (c : Char) : Option (Int × Int) := Gen.nnTerminal.lookup c.toNat
+def terminalLookup (c : Char) : Option (Int × Int) :=
+  match Gen.nnTerminal.lookup c.toNat with
+  | some p => some p
+  | none => Gen.nnOtherTerminal.lookup c.toNat                   -- last letters outside A/C/G/T (out of domain)
 
 /-- `for i := 0; i+1 < len(sequence); i++ { dT := table[sequence[i:i+2]]; dH += dT.H; dS += dT.S }` -/
 def nnLoop (n : Num α) : Str → α × α → α × α
